@@ -123,10 +123,15 @@ package proxyproto
 
 // ---- Conn: the advertised address, never a missing one ----
 
+// nHdrRead(): how many times a header read (which waits for the peer's bytes,
+// up to the header timeout) was started.
+//@ ghost ivar nHdrRead() int
 //@ func (*Conn).readHeaderContext
 //@ property C08 C12
+//@ ghostset nHdrRead() := old(nHdrRead()) + 1
 //@ requires c != nil && c.Conn != nil && ctx != nil
 //@ modifies **
+//@ ensures nHdrRead() == old(nHdrRead()) + 1
 //@ ensures lockDepth() == old(lockDepth())
 //@ ensures result == c.headerErr
 //@ ensures c.Conn == old(c.Conn)
@@ -179,11 +184,15 @@ package proxyproto
 //@ requires c != nil && c.Conn != nil && ctx != nil
 //@ modifies **
 
+// Accept only wraps the connection: the header is read by the connection's
+// own first use, so a peer that stalls inside its header delays nobody else
+// ("only that connection fails").
 //@ func (*Listener).Accept
-//@ property C08 C12
+//@ property C08 C12 C15
 //@ requires l != nil && l.Listener != nil
 //@ modifies *
 //@ ensures result1 == nil ==> result0 != nil
+//@ ensures nHdrRead() == old(nHdrRead())
 
 //@ func (*Header).ParseTLVs
 //@ property C08 C12
